@@ -501,6 +501,7 @@ func encodeIndexInfos(idxs []*pilosa.IndexInfo) []*internal.Index {
 func encodeIndexInfo(idx *pilosa.IndexInfo) *internal.Index {
 	return &internal.Index{
 		Name:   idx.Name,
+		Meta:   encodeIndexMeta(&idx.Options),
 		Fields: encodeFieldInfos(idx.Fields),
 	}
 }
@@ -784,6 +785,7 @@ func decodeIndexes(idxs []*internal.Index, m []*pilosa.IndexInfo) {
 
 func decodeIndex(idx *internal.Index, m *pilosa.IndexInfo) {
 	m.Name = idx.Name
+	decodeIndexMeta(idx.Meta, &m.Options)
 	m.Fields = make([]*pilosa.FieldInfo, len(idx.Fields))
 	decodeFields(idx.Fields, m.Fields)
 }
